@@ -13,7 +13,7 @@ import (
 // checkAdd applies the real Add(d) (and then Add(-d)) to a fresh real list built from l and
 // compares with the specification. Returns the model successor and "" or a violation key+message.
 func checkAdd(l lm.List, d int64) (lm.List, string, string) {
-	r := lm.Build(l, nil, nil)
+	r := lm.Build(l, []string{"a"}, []string{"r"})
 	r.Subs.Add(time.Duration(d))
 	got := r.Extract()
 	exp := refops.Add(l, d)
@@ -94,7 +94,7 @@ func c09Run(c *core.Ctx) {
 		scopes = []scope{{5, 3, []int64{ns, ms, sec, hour + ms}}, {4, 4, []int64{ms, hour + ms}}}
 		chainMax, chainGrid, chainDepth = 3, 3, 3
 	}
-	texts := []string{"x", "y"}
+	texts := []string{"x|1\n\n2", "y"} // first text: two runs on the first line, an empty line, a third line
 	// (a) every list in scope x every d, also d = +24h and d = 0
 	for _, sc := range scopes {
 		a := cueAlphabet(sc.grid, texts, false)
@@ -103,7 +103,7 @@ func c09Run(c *core.Ctx) {
 				if !c.Mine() {
 					return true
 				}
-				l := l0.Scale(unit)
+				l := decorate(l0.Scale(unit))
 				ds := append(addDeltas(l, unit), 24*hour, 0)
 				if unit != ns {
 					ds = append(ds, -1, 1) // nanosecond nudges around the grid: clamping at ns granularity
@@ -141,7 +141,7 @@ func c09Run(c *core.Ctx) {
 				hist []int64
 			}
 			seen := map[string]bool{}
-			fr := []node{{l0.Scale(unit), nil}}
+			fr := []node{{decorate(l0.Scale(unit)), nil}}
 			seen[fr[0].l.Key()] = true
 			for depth := 0; depth < chainDepth; depth++ {
 				var next []node
@@ -152,7 +152,7 @@ func c09Run(c *core.Ctx) {
 						c.Traces++
 						h := append(append([]int64{}, n.hist...), d)
 						c.Record("add.chain", core.Hash64(exp.Key()), core.Hash64("chain", l0.Key(), fmt.Sprint(h)), func() interface{} {
-							return opCase{Op: "add-chain", Unit: unit, List: l0.Scale(unit), P: h}
+							return opCase{Op: "add-chain", Unit: unit, List: decorate(l0.Scale(unit)), P: h}
 						})
 						if key != "" {
 							c.Violate("add.chain", key, msg, opCase{Op: "add", Unit: unit, List: n.l.Clone(), P: []int64{d}}, len(n.l)*100+len(h))
